@@ -302,6 +302,24 @@ func (ir *ifdReader) ParseRationalU(t Tag) [2]uint32 {
 // ParseUint32 parses a Uint32 value.
 // Embedded tag with value length 4 bytes.
 func (ir *ifdReader) ParseUint32(t Tag) uint32 {
+	if !t.IsEmbedded() {
+		// More values than fit the value slot (several ISO ratings, one
+		// StripOffset per strip): the slot holds their offset. Read the first value.
+		if ir.discard(int(t.ValueOffset)-int(ir.po)) != nil {
+			return 0
+		}
+		switch t.Type {
+		case tag.TypeLong:
+			if buf, err := ir.fastRead(4); err == nil && len(buf) >= 4 {
+				return t.ByteOrder.Uint32(buf[:4])
+			}
+		case tag.TypeShort:
+			if buf, err := ir.fastRead(2); err == nil && len(buf) >= 2 {
+				return uint32(t.ByteOrder.Uint16(buf[:2]))
+			}
+		}
+		return 0
+	}
 	switch t.Type {
 	case tag.TypeLong:
 		return uint32(t.ValueOffset)
